@@ -21,10 +21,11 @@ MAP_ITER = r"HashMap::<K, V, S, A>::(iter|iter_mut|keys|values|values_mut|into_k
 
 # reviewed inventory of HashMap iteration sites: function -> (disposition, reason)
 ITER_TABLE = {
-    CQS: ("sorted", "collects (name, value) pairs and sorts them before rendering (C10-R1/R2)"),
-    "canonical::debug_headers": ("debug-only", "feeds only the Debug rendering of CanonicalRequest / trace output"),
-    "canonical::CanonicalRequest::get_auth_parameters": ("message-only", "prefix loop: order selects only which unsigned header the error message names; the kind is SignatureDoesNotMatch on every order (observation O1)"),
-    "canonical::CanonicalRequest::from_request_parts": ("map-sink", "body map is drained into another map per key (entry(key).or_default().extend): distinct keys, order-insensitive"),
+    # function: (disposition, allowed {callee: count}, reason)
+    CQS: ("sorted", {"iter": 1}, "collects (name, value) pairs and sorts them before rendering (C10-R1/R2)"),
+    "canonical::debug_headers": ("debug-only", {"iter": 1}, "feeds only the Debug rendering of CanonicalRequest / trace output"),
+    "canonical::CanonicalRequest::get_auth_parameters": ("message-only", {"keys": 1}, "prefix loop: order selects only which unsigned header the error message names; the kind is SignatureDoesNotMatch on every order (observation O1)"),
+    "canonical::CanonicalRequest::from_request_parts": ("map-sink", {"into_iter": 1}, "the BODY map is consumed into the URL map per key (entry(key).or_default().extend): distinct keys, order-insensitive"),
 }
 
 
@@ -53,18 +54,27 @@ def r1(ctx):
     sites = map_iteration_sites(ctx.facts)
     ctx.count(len(sites))
     seen = set()
+    counts = {}
     for b, bi, t in sites:
         base = re.sub(r"::\{closure#\d+\}$", "", b.path)
-        if base not in ITER_TABLE:
-            yield VIOL("C10-R1", "unreviewed-map-iteration/" + b.path + ":" + t["callee"].split("::")[-1], "iteration over a hash map (`%s`) at a site not in the reviewed inventory: its order depends on the per-process hash seed" % t["callee"], where=b.span_of_block(bi))
+        nm = t["callee"].split("::")[-1]
+        if base not in ITER_TABLE or nm not in ITER_TABLE[base][1]:
+            yield VIOL("C10-R1", "unreviewed-map-iteration/" + b.path + ":" + nm, "iteration over a hash map (`%s`) at a site not in the reviewed inventory: its order depends on the per-process hash seed" % t["callee"], where=b.span_of_block(bi))
         else:
             seen.add(base)
+            counts[(base, nm)] = counts.get((base, nm), 0) + 1
+            if counts[(base, nm)] > ITER_TABLE[base][1][nm]:
+                yield VIOL("C10-R1", "unreviewed-map-iteration/" + b.path + ":" + nm + "#%d" % counts[(base, nm)], "an additional hash-map iteration (`%s`) in %s beyond the reviewed one(s)" % (t["callee"], base), where=b.span_of_block(bi))
+    # the consumed map in from_request_parts must be the body's, not the merged one
+    for b, bi, t in sites:
+        if b.path == "canonical::CanonicalRequest::from_request_parts":
+            sl = b.slice_op(t["args"][0])
+            if not sl.has_call(r"encoding::Encoding::decode$"):
+                yield VIOL("C10-R1", "from_request_parts/iterates-merged-map", "the map iterated in from_request_parts is not the freshly parsed body map", where=b.span_of_block(bi))
     if len(sites) < 4:
         yield MISSING("C10-R1", "map-iteration/floor", "only %d hash-map iteration sites found (4 confirmed by hand)" % len(sites))
-    elif seen >= set(k for k in ITER_TABLE):
-        yield PASS("C10-R1", "map-iteration/inventory", "%d iteration sites, all reviewed: %s" % (len(sites), {k: v[0] for k, v in ITER_TABLE.items()}), [site(b, bi, t["callee"].split("::")[-1]) for b, bi, t in sites])
     else:
-        yield PASS("C10-R1", "map-iteration/inventory", "%d iteration sites, all reviewed (table rows no longer present: %s)" % (len(sites), sorted(set(ITER_TABLE) - seen)), [])
+        yield PASS("C10-R1", "map-iteration/inventory", "%d iteration sites, all reviewed: %s" % (len(sites), {k: v[0] for k, v in ITER_TABLE.items()}), [site(b, bi, t["callee"].split("::")[-1]) for b, bi, t in sites])
     # sortedness in canonicalize_query_to_string
     b = ctx.fn(CQS)
     it = [x for x in b.calls(MAP_ITER)]
